@@ -260,10 +260,88 @@ def make_array(spec):
     return a.astype(dt)
 
 
+PRIMARY = {'analyze': '.img', 'spm99': '.img', 'spm2': '.img', 'n1pair': '.img', 'n2pair': '.img',
+           'n1single': '.nii', 'n2single': '.nii', 'mgh': '.mgh', 'cifti2': '.nii'}
+SPELLINGS = ['abs', 'rel', 'dot', 'updir', 'symlink']
+_scratch = []
+
+
+def scratch_root():
+    """one scratch directory per process tree, removed at exit of the process that made it"""
+    import atexit
+    import shutil
+    if not _scratch:
+        root = tempfile.mkdtemp(prefix='c07_loaded_')
+        _scratch.append(root)
+        pid = os.getpid()
+        atexit.register(lambda: os.getpid() == pid and shutil.rmtree(root, ignore_errors=True))
+    return _scratch[0]
+
+
+def file_exts(cls, cext):
+    if cls == 'mgh':
+        return ['.mgz' if cext else '.mgh']
+    return [e + cext for _, e in klass_of(cls).files_types]
+
+
+def target_name(cls, stem, cext):
+    return stem + ('.mgz' if (cls == 'mgh' and cext) else PRIMARY[cls] + cext)
+
+
+def spelled(root, cls, stem, cext, spelling):
+    """a spelling of the path of `stem` inside `root` (the process's cwd is `root` for the relative ones)"""
+    name = target_name(cls, stem, cext)
+    if spelling == 'abs':
+        return os.path.join(root, name)
+    if spelling == 'rel':
+        return name
+    if spelling == 'dot':
+        return './' + name
+    if spelling == 'updir':
+        return 'sub/../' + name
+    if spelling == 'symlink':
+        return target_name(cls, 'link_' + stem, cext)
+    raise ValueError(spelling)
+
+
+def make_source(d, root):
+    """write the source file(s) `vol.*` of a loaded-image configuration into `root` (+ `sub/`, symlinks)"""
+    cls = d['cls']
+    ld = d['load']
+    cfg = {k: v for k, v in d.items() if k in ('cls', 'data', 'ext', 'aff', 'endian')}
+    base = build(cfg)
+    os.makedirs(os.path.join(root, 'sub'), exist_ok=True)
+    base.to_filename(os.path.join(root, target_name(cls, 'vol', ld['cext'])))
+    for stem in ('vol', 'other1', 'other2'):
+        for e in file_exts(cls, ld['cext']):
+            link = os.path.join(root, 'link_' + stem + e)
+            if not os.path.lexists(link):
+                os.symlink(stem + e, link)
+
+
 def build(d, harmonise=True):
     """the image described by the configuration part of `d` (fresh, deterministic)"""
     n = nib()
     cls = d['cls']
+    if d.get('load'):
+        # an image LOADED from a file (ArrayProxy, memory-mapped or not); in this (parent) process it is only
+        # ever saved to in-memory file objects
+        root = tempfile.mkdtemp(prefix='b', dir=scratch_root())
+        make_source(d, root)
+        img = klass_of(cls).from_filename(os.path.join(root, target_name(cls, 'vol', d['load']['cext'])),
+                                          mmap=d['load']['mmap'])
+        if d.get('setdt'):
+            img.set_data_dtype(np.dtype(d['setdt']))
+        if d.get('alias'):
+            img.set_data_dtype(d['alias'])
+        if harmonise and cls != 'cifti2':
+            img.update_header()
+        elif harmonise:
+            try:
+                img.to_file_map(make_map(cls, Budget(), False))
+            except Exception:
+                pass
+        return img
     arr = make_array(d['data'])
     if cls == 'cifti2':
         from nibabel.cifti2 import cifti2_axes as axes
@@ -511,7 +589,7 @@ def needed_dtnames(d):
     for op in d['ops']:
         if op[0] == 'D':
             names.add(op[1])
-        elif op[0] in ('S', 'OS') and op[1] and op[1] not in ('compat', 'smallest'):
+        elif op[0] in ('S', 'OS', 'N') and op[1] and op[1] not in ('compat', 'smallest'):
             names.add(op[1])
     # what the aliases resolve to
     inv = {v: k for k, v in NIFTI_CODES.items()}
@@ -554,11 +632,21 @@ def protocol_line(d):
             ops.append('D:%d' % code_of(cls, op[1]))
         elif op[0] == 'A':
             ops.append('A:' + op[1][0])
+        elif op[0] == 'N':
+            _, dt, target, spelling = op
+            dts = '-' if dt is None else ('ac' if dt == 'compat' else 'as' if dt == 'smallest' else
+                                          'c%d' % code_of(cls, dt))
+            # identity of the destination image file: 1 = the file the image was loaded from, however spelled
+            ops.append(f'S:{dts}:-:{len(ops) + 1}:{1 if target == "self" else 0}')
         else:
             raise ValueError(op)
-    return ('C07 run {cls} {owned} {off},{dt},{sl},{it} {alias} {aff} {xflip} {src} {exts} {mat} {res} {table} {ops}'.format(
+    src = 'a'
+    if d.get('load'):
+        src = ('m1' if isinstance(np.asanyarray(img.dataobj), np.memmap) else 'r1')
+    return ('C07 {cmd} {cls} {owned} {off},{dt},{sl},{it} {alias} {aff} {xflip} {src} {exts} {mat} {res} {table} {ops}'.format(
+        cmd='runq' if d.get('op') == 'lrun' else 'run',
         cls=cls, owned=int(d['owned']), off=off, dt=dtc, sl=sl, it=it, alias=alias_of(img),
-        aff=aff_token(d), xflip=xflip_of(cls, header_of(cls, img)), src='a',
+        aff=aff_token(d), xflip=xflip_of(cls, header_of(cls, img)), src=src,
         exts=','.join(f'{a}:{b}' for a, b in exts) or '-', mat=','.join(map(str, trailing)) or '-',
         res=resolve_of(d), table=';'.join(entries) or '-', ops=';'.join(ops)))
 
@@ -575,7 +663,7 @@ def mk_case(d, stream):
         line = protocol_line(d)
     except Exception as e:           # generator problem: surfaces as a driver disagreement (`bad-op`)
         line = 'C07 gen-failed ' + type(e).__name__
-    nontrivial = any((op[0] in ('S', 'OS') and (op[1] or op[2])) or op[0] in ('D', 'A') for op in d['ops']) \
+    nontrivial = any((op[0] in ('S', 'OS') and (op[1] or op[2])) or op[0] in ('D', 'A', 'N') for op in d['ops']) \
         or d.get('alias')
     key = (config_key(d), d['owned'], repr(d['ops'])) if nontrivial else None
     return Case(line, d, key, stream)
@@ -747,6 +835,41 @@ def rand_history(rng, cls, tier):
     return d
 
 
+def loaded_cases(rng, tier):
+    out = []
+    for cls in CLASSES:
+        kinds = ['f4', 'i2'] if tier == 'quick' else ['f4', 'i2', 'u1']
+        if cls == 'cifti2':
+            kinds = ['f4']
+        for mmap in (True, False):
+            for cext in ('', '.gz'):
+                if cext and (cls == 'cifti2' or ((mmap or tier == 'quick') and not (cls in ('n1single', 'mgh') and not mmap))):
+                    continue
+                for kind in kinds:
+                    base = {'op': 'lrun', 'cls': cls, 'owned': True, 'data': default_data(cls, kind),
+                            'load': {'cext': cext, 'mmap': mmap, 'spell': rng.choice(['abs', 'rel', 'dot'])}}
+                    if cls in ANALYZE_FAMILY + NIFTI and rng.random() < 0.5:
+                        base['aff'] = rng.choice(AFFS)
+                    # every spelling of the source path as the destination of a self-overwrite, each followed by a
+                    # save elsewhere (reads the image's data again) and a second self-overwrite
+                    spells = SPELLINGS if (tier != 'quick' or kind == kinds[0]) else [rng.choice(SPELLINGS)]
+                    for sp in spells:
+                        ops = [['N', None, 'self', sp], ['N', None, 'other1', rng.choice(SPELLINGS)],
+                               ['N', None, 'self', rng.choice(SPELLINGS)], ['N', None, 'other2', 'abs']]
+                        out.append(mk_case(dict(base, ops=ops), 'loaded'))
+                    # saves elsewhere first (dtype= overrides allowed), then onto the source
+                    n = 1 if tier == 'quick' else 3
+                    for _ in range(n):
+                        ops = []
+                        for _ in range(rng.randrange(1, 4)):
+                            dt = rng.choice([None, None, 'int16', 'float32', 'uint8']) if cls != 'mgh' else None
+                            ops.append(['N', dt, rng.choice(['other1', 'other2']), rng.choice(SPELLINGS)])
+                        ops.append(['N', None, 'self', rng.choice(SPELLINGS)])
+                        ops.append(['N', None, 'other1', 'rel'])
+                        out.append(mk_case(dict(base, ops=ops), 'loaded'))
+    return out
+
+
 def _supported(cls, name):
     try:
         hdr_class(cls)().set_data_dtype(np.dtype(name))
@@ -781,6 +904,8 @@ def cases(rng, tier):
     nh = {'quick': 60, 'thorough': 1500, 'search': 400}[tier]
     for _ in range(nh):
         out.append(mk_case(rand_history(rng, rng.choice(CLASSES), tier), 'hist'))
+    # ---- images LOADED from a file, saved by name onto their own source (every spelling) and elsewhere
+    out.extend(loaded_cases(rng, tier))
     # ---- by file name, compressed
     for cls in CLASSES:
         for ext in ('', '.gz', '.bz2', '.zst'):
@@ -793,6 +918,12 @@ def cases(rng, tier):
 
 def shrink_candidates(case):
     d = case.data
+    if d.get('op') == 'lrun':
+        ops = d['ops']
+        for i in range(len(ops)):
+            if len(ops) > 1:
+                yield mk_case(dict(d, ops=ops[:i] + ops[i + 1:]), d.get('stream', 'shrunk'))
+        return
     if d.get('op') != 'run':
         return
     ops = d['ops']
@@ -861,6 +992,8 @@ def impl(case):
     d = case.data
     if d.get('op') == 'byname':
         return impl_byname(case)
+    if d.get('op') == 'lrun':
+        return impl_loaded(case)
     cls = d['cls']
     img = build(d)
     hdr0 = header_of(cls, img)
@@ -912,6 +1045,114 @@ def impl(case):
             raise ValueError(op)
     case.extra = {'recs': recs}
     return ' | '.join(parts)
+
+
+def _loaded_child(d, conn):
+    """runs in a CHILD process (a save over a live memory map can end in SIGBUS): load the source file with the
+    requested spelling / mmap mode, then save by file NAME onto the source itself (any spelling) or elsewhere"""
+    try:
+        import shutil
+        cls = d['cls']
+        ld = d['load']
+        root = tempfile.mkdtemp(prefix='c07_child_')
+        try:
+            os.chdir(root)
+            make_source(d, root)
+            k = klass_of(cls)
+            img = k.from_filename(spelled(root, cls, 'vol', ld['cext'], ld.get('spell', 'abs')), mmap=ld['mmap'])
+            if d.get('setdt'):
+                img.set_data_dtype(np.dtype(d['setdt']))
+            if cls != 'cifti2':
+                img.update_header()
+            hdr0 = header_of(cls, img)
+            fm_ids = {id(img.file_map): 0}
+            keep = [img.file_map]
+            hseen, oseen, aseen, dseen = {}, {}, {}, {}
+            state = lambda: state_token(cls, img, hdr0, fm_ids, hseen, aseen, dseen)
+            parts, recs = [state()], []
+            for j, op in enumerate(d['ops'], 1):
+                _, dt, target, spelling = op
+                stem = 'vol' if target == 'self' else target
+                path = spelled(root, cls, stem, ld['cext'], spelling)
+                before = full_state(cls, img)
+                kw = {} if dt is None else {'dtype': parse_dt(dt)}
+                try:
+                    img.to_filename(path, **kw)
+                    res = 'ok'
+                except Exception as e:
+                    res = canon_err(e)
+                if id(img.file_map) not in fm_ids:
+                    fm_ids[id(img.file_map)] = j
+                    keep.append(img.file_map)
+                after = full_state(cls, img)
+                rec = {'j': j, 'op': op, 'res': res, 'before': before, 'after': after}
+                oid = '-'
+                bmap = None
+                if res == 'ok':
+                    bmap = {}
+                    for e in file_exts(cls, ld['cext']):
+                        fn = os.path.join(root, stem + e)
+                        bmap[e] = open(fn, 'rb').read() if os.path.exists(fn) else None
+                    rec['files'] = {e: (None if b is None else hashlib.sha1(b).hexdigest()) for e, b in bmap.items()}
+                    oid = first_seen(oseen, repr(sorted(rec['files'].items())))
+                    try:
+                        back = k.from_filename(os.path.join(root, target_name(cls, stem, ld['cext'])), mmap=False)
+                        got = np.asanyarray(back.dataobj).astype(np.float64)
+                        want = np.asanyarray(img.dataobj).astype(np.float64)
+                        rec['shape_ok'] = got.shape == want.shape
+                        rec['err'] = float(np.abs(got - want).max()) if got.shape == want.shape else None
+                        rec['amax'] = float(np.abs(want).max())
+                        rec['out_dt'] = str(back.get_data_dtype())
+                        rec['src_dt'] = str(np.asanyarray(img.dataobj).dtype)
+                        rec['slope'] = float(getattr(back.dataobj, 'slope', 1.0))
+                        ba, ia = getattr(back, '_affine', None), getattr(img, '_affine', None)
+                        rec['affine_ok'] = (ba is None and ia is None) or (
+                            ba is not None and ia is not None and bool(np.allclose(ba, ia, rtol=1e-5, atol=1e-4)))
+                    except Exception as e:
+                        rec['reload'] = canon_err(e) + ' ' + str(e)[:80]
+                mat = ''
+                if bmap and bmap.get('.mat' + ld['cext']):
+                    from nibabel.openers import Opener
+                    with Opener(os.path.join(root, stem + '.mat' + ld['cext']), 'rb') as mf:
+                        mat = mat_token({'mat': mf.read()})
+                recs.append(rec)
+                parts.append(f'{res} {state()} out={oid}{mat}')
+            conn.send((' | '.join(parts), recs))
+        finally:
+            os.chdir('/')
+            shutil.rmtree(root, ignore_errors=True)
+    except BaseException as e:
+        import traceback
+        try:
+            conn.send(('ERR:child:' + type(e).__name__ + ':' + str(e)[:200] + traceback.format_exc()[-400:], []))
+        except Exception:
+            pass
+    finally:
+        conn.close()
+        os._exit(0)
+
+
+def impl_loaded(case):
+    import multiprocessing as mp
+    ctx = mp.get_context('fork')
+    parent, child = ctx.Pipe(duplex=False)
+    pr = ctx.Process(target=_loaded_child, args=(case.data, child))
+    pr.start()
+    child.close()
+    out, recs = None, []
+    try:
+        if parent.poll(120):
+            out, recs = parent.recv()
+    except (EOFError, OSError):
+        pass
+    pr.join(10)
+    if pr.is_alive():
+        pr.kill()
+        pr.join()
+    if out is None:
+        out = f'CRASH:exit={pr.exitcode}'
+    case.extra = {'recs': recs, 'out': out}
+    return out
 
 
 def impl_byname(case):
@@ -1029,11 +1270,63 @@ def decode_check(d, rec_desc, bmap, applied, dt, autoscale):
     return None
 
 
+def oracle_loaded(case, out):
+    """loaded-from-file images saved by name: the image (data digest, affine, header bytes, dtype, alias) is what it
+    was, every file written loads back to the image's data and affine, saves with the same dtype= are byte-identical"""
+    d = case.data
+    ex = case.extra or {}
+    cls, ld = d['cls'], d['load']
+    tag = f'{cls} loaded from vol{PRIMARY[cls]}{ld["cext"]} (mmap={ld["mmap"]}, spelled {ld.get("spell", "abs")})'
+    if out.startswith('CRASH'):
+        return f'{tag}: the process died during the history {d["ops"]} ({out})'
+    if out.startswith('ERR:child'):
+        return f'{tag}: history raised outside any save: {out[:300]}'
+    by_dt = {}
+    for rec in ex.get('recs', []):
+        _, dt, target, spelling = rec['op']
+        desc = f'{tag} save #{rec["j"]} by name onto {target} (spelled {spelling}, dtype={dt}, result {rec["res"]})'
+        ch = diff_state(rec['before'], rec['after'])
+        if ch:
+            return f'{desc}: the save changed the image: {ch}'
+        if rec['res'] == 'ERR:OSError':
+            return f'{desc}: OSError on a healthy file system'
+        if rec['res'] != 'ok':
+            continue          # a refusal (WriterError, TypeError for MGH dtype=, …) — compared with the model only
+        if rec.get('reload'):
+            return f'{desc}: the written file does not load: {rec["reload"]}'
+        if not rec.get('shape_ok'):
+            return f'{desc}: fresh load of the written file has another shape'
+        if not rec.get('affine_ok'):
+            return f'{desc}: fresh load of the written file has another affine'
+        out_dt, src_dt = np.dtype(rec['out_dt']), np.dtype(rec['src_dt'])
+        if not (cls == 'mgh' and not np.can_cast(src_dt, out_dt, 'safe')):
+            tol = rw_tolerance(src_dt, out_dt, rec['slope'], rec['amax'])
+            if tol is not None and not rec['err'] <= tol:
+                return (f'{desc}: fresh load of the written file differs from the image data by {rec["err"]:g} '
+                        f'(allowed {tol:g}; on-disk dtype {out_dt}, slope {rec["slope"]:g})')
+        prev = by_dt.setdefault(dt, (rec['files'], rec['j']))
+        if prev[0] != rec['files']:
+            bad = [e for e in rec['files'] if rec['files'][e] != prev[0].get(e)]
+            return f'{desc}: files {bad} are not byte-identical to those of save #{prev[1]} of the unchanged image'
+    return None
+
+
+def rw_tolerance(src_dt, out_dt, slope, amax):
+    if out_dt.kind in 'iu':
+        src_int = src_dt.kind in 'iu'
+        return (0.0 if (src_int and slope == 1.0) else abs(slope) / 2 * (1 + 1e-4)) + amax * 2e-6
+    if out_dt.kind == 'f':
+        return amax * (2e-7 if out_dt.itemsize == 4 else 1e-15) * 4
+    return None
+
+
 def oracle(case, out):
     d = case.data
     ex = case.extra or {}
     if d.get('op') == 'byname':
         return oracle_byname(case, out)
+    if d.get('op') == 'lrun':
+        return oracle_loaded(case, out)
     if out.startswith('ERR:'):
         return f'running the history raised outside any save: {out}'
     cls = d['cls']
@@ -1120,6 +1413,10 @@ def signature(case, what):
     d = case.data
     if d.get('op') == 'byname':
         return f'byname:{d["cls"]}:{d["cext"]}:' + ('not-identical' if 'differ in' in what else 'other')
+    if d.get('op') == 'lrun':
+        kind = ('crash' if 'process died' in what else 'state-changed' if 'changed the image' in what else
+                'not-identical' if 'byte-identical' in what else 'decode')
+        return f'loaded:{d["cls"]}:{kind}'
     fam = 'nifti' if d['cls'] in NIFTI else d['cls']
     if 'changed the image' in what:
         kind = 'state-changed:' + ('alias' if d.get('alias') or any(op[0] == 'A' for op in d['ops']) else 'plain')
